@@ -160,9 +160,40 @@ def _tod_case(rel, repeat, first_day_mode):
 _tod_cases = [_tod_case(rel, rep, fdm) for rel in (Comparison.eq, Comparison.gt, Comparison.lt, Comparison.ge, Comparison.le)
               for rep in (True, False) for fdm in ("zero", "sym")]
 
+def _tod_init_case(repeat, given_first_day):
+    """what the constructor hands to evaluate: a daily (repeating) condition keeps the first day it was given - it holds on the start day too, whatever the
+    start clock time; only a one-off condition whose clock time has already passed when the simulation starts waits for the next day"""
+    def build(cx):
+        th, s = cx.int("threshold_seconds"), cx.int("start_clocktime")
+        cx.assume(cx.t(th) >= 0, cx.t(th) < DAY, cx.t(s) >= 0, cx.t(s) < DAY)
+        model = cx.obj(types.SimpleNamespace, options=cx.obj(types.SimpleNamespace, time=cx.obj(types.SimpleNamespace, start_clocktime=s)))
+
+        def make(m, rel, t, rep, fd):
+            return TimeOfDayCondition(m, rel, t, rep, fd)
+        cx.interp.interpret_always = tuple(cx.interp.interpret_always) + (make, TimeOfDayCondition)
+        cx.target(make, model, Comparison.ge, th, repeat, given_first_day)
+
+        def post(out):
+            if not out.returned:
+                return []
+            c = out.value
+            g = lambda a: cx.interp.getattr(c, a)
+            fd = g("_first_day")
+            FD = fd.t if hasattr(fd, "t") else z3.IntVal(int(fd))
+            already_passed = z3.And(z3.BoolVal(not repeat), cx.t(th) < cx.t(s), z3.BoolVal(given_first_day < 1))
+            from pyvc import library
+            return [("threshold_relation_and_repeat_kept", z3.And(library.as_real(g("_threshold")) == z3.ToReal(cx.t(th)), z3.BoolVal(g("_relation") is Comparison.ge and g("_repeat") is repeat))),
+                    ("a_daily_condition_starts_on_the_day_given_a_one_off_condition_already_passed_waits_a_day", FD == z3.If(already_passed, z3.IntVal(1), z3.IntVal(given_first_day))),
+                    ("no_backtrack_pending", g("_backtrack") == 0)]
+        cx.ensure(post)
+    return Case("repeat=%s,first_day=%d" % (repeat, given_first_day), build, crosscheck=False)
+
+
 CONTRACTS = [
     Contract("wntr.network.controls:SimTimeCondition.evaluate", P, _sim_cases,
              note="times are integers (seconds)"),
+    Contract("wntr.network.controls:TimeOfDayCondition.__init__", P, [_tod_init_case(r, f) for r in (True, False) for f in (0, 1)],
+             note="numeric threshold (seconds); clock-time texts go through _parse_value (bounded: C12.time_texts)"),
     Contract("wntr.network.controls:TimeOfDayCondition.evaluate", P, _tod_cases,
              note="times are integers; step length <= 1 day; shifted = sim + start_clocktime"),
 ]
